@@ -1,9 +1,10 @@
-"""harmless3/make.py: writes harmless3/NN.diff + INDEX.txt and harmless3/mutants/NN.diff + INDEX.txt: behaviour-preserving rewrites of the functions pystream.py translates"""
+"""harmless3-stream/make.py: writes NN.diff + INDEX.txt and mutants/NN.diff + INDEX.txt next to itself (VERIF_REPO = the tree to diff against, default /repo): behaviour-preserving rewrites of the functions pystream.py translates"""
 import os, subprocess, shutil, tempfile, sys
 W = os.path.dirname(os.path.dirname(os.path.abspath(__file__)))
-OUT = W + '/harmless3'
+OUT = os.path.dirname(os.path.abspath(__file__))
 F = 'testtools/testresult/real.py'
-SRC = open('/repo/' + F).read()
+REPO = os.environ.get('VERIF_REPO', '/repo')          # the tree the diffs are made against
+SRC = open(REPO + '/' + F).read()
 RW = []
 MU = []
 
@@ -176,46 +177,40 @@ assert SRC.count(CTL) == 1
 rw('router', "StreamResultRouter.startTestRun / stopTestRun: loop variable renamed, explicit two-argument super()",
    (CTL, CTL.replace('for sink in self._sinks:', 'for result in self._sinks:').replace('sink.st', 'result.st')
     .replace('super().', 'super(StreamResultRouter, self).')))
-ADD = '''        policy_method = StreamResultRouter._policies.get(policy, None)
+HEAD = '''        policy_method = StreamResultRouter._policies.get(policy, None)
         if not policy_method:
             raise ValueError(f"bad policy {policy!r}")
         policy_method(self, sink, **policy_args)
-        if do_start_stop_run:
-            self._sinks.append(sink)
-            if self._in_run:
-                sink.startTestRun()
 '''
-assert SRC.count(ADD) == 1
-rw('router', "StreamResultRouter.add_rule: local renamed, `is None` test, policy table reached through self, the nested `if self._in_run` flattened into `if do_start_stop_run and self._in_run` after the append",
+ADD = SRC[SRC.index(HEAD):SRC.index('    def _map_route_code_prefix(self')]
+assert SRC.count(ADD) == 1 and 'if do_start_stop_run and not any(s is sink for s in self._sinks):' in ADD
+rw('router', "StreamResultRouter.add_rule: local renamed, `is None` test, policy table reached through self, `if a and b:` as two nested ifs, the variable of the generator renamed",
    (ADD, '''        method = self._policies.get(policy)
         if method is None:
             raise ValueError(f"bad policy {policy!r}")
         method(self, sink, **policy_args)
         if do_start_stop_run:
-            self._sinks.append(sink)
-        if do_start_stop_run and self._in_run:
-            sink.startTestRun()
+            if not any(known is sink for known in self._sinks):
+                self._sinks.append(sink)
+                if self._in_run:
+                    sink.startTestRun()
+
 '''))
 rw('router', "StreamResultRouter.add_rule: early return when the sink is not to see start/stop (`if not do_start_stop_run: return`)",
-   (ADD, '''        policy_method = StreamResultRouter._policies.get(policy, None)
-        if not policy_method:
-            raise ValueError(f"bad policy {policy!r}")
-        policy_method(self, sink, **policy_args)
-        if not do_start_stop_run:
+   (ADD, HEAD + '''        if not do_start_stop_run:
             return
-        self._sinks.append(sink)
-        if self._in_run:
-            sink.startTestRun()
+        if not any(s is sink for s in self._sinks):
+            self._sinks.append(sink)
+            if self._in_run:
+                sink.startTestRun()
+
 '''))
 rw('router', "StreamResultRouter.add_rule: the sink is started BEFORE it is appended to _sinks (two effects swapped; the suite passes, but a sink that re-enters the router from startTestRun sees the difference: the check finds a failing input)",
-   (ADD, '''        policy_method = StreamResultRouter._policies.get(policy, None)
-        if not policy_method:
-            raise ValueError(f"bad policy {policy!r}")
-        policy_method(self, sink, **policy_args)
-        if do_start_stop_run:
+   (ADD, HEAD + '''        if do_start_stop_run and not any(s is sink for s in self._sinks):
             if self._in_run:
                 sink.startTestRun()
             self._sinks.append(sink)
+
 ''', ), expect='strict')
 rw('router', "StreamResultRouter.stopTestRun: `self._in_run = False` moved before the loop over the sinks (the suite passes, but a sink that re-enters add_rule during stopTestRun sees another flag: the check finds a failing input)",
    (CTL, CTL.replace('''        super().stopTestRun()
@@ -633,6 +628,31 @@ rw('converter', "ExtendedToStreamDecorator.startTestRun: `self._started = True` 
         self.__now = None
 '''), expect='strict')
 
+# (appended later so that the numbers above stay)
+TAGGER = '''        if supplied is None and not test_tags:
+            test_tags = None
+'''
+if SRC.count(TAGGER) == 1:
+    rw('decorators', "StreamTagger.status: the two tests of the None rule exchanged (`if not test_tags and supplied is None`)",
+       (TAGGER, '''        if not test_tags and supplied is None:
+            test_tags = None
+'''))
+IMPLIED = '''        tags, now = self._tags, self.__now
+        self.startTestRun()
+        self._tags, self.__now = tags, now
+'''
+if SRC.count(IMPLIED) == 1:
+    rw('converter', "ExtendedToStreamDecorator._implied_start: the two locals renamed",
+       (IMPLIED, '''        kept_tags, kept_now = self._tags, self.__now
+        self.startTestRun()
+        self._tags, self.__now = kept_tags, kept_now
+'''))
+    rw('converter', "ExtendedToStreamDecorator._implied_start: tags and clock put back BEFORE startTestRun() runs (they are reset again: the time() / tags() given before the first startTest are lost)",
+       (IMPLIED, '''        tags, now = self._tags, self.__now
+        self._tags, self.__now = tags, now
+        self.startTestRun()
+'''), expect='strict')
+
 # =================================================================================================== mutants
 def mu(group, desc, *pairs):
     MU.append((group, desc, pairs, 'mutant'))
@@ -691,25 +711,36 @@ mu('router', "status: an empty remainder DROPS the event (`if not route_code: re
 mu('router', "status: `split(\"/\", 0)[0]` (no split at all: the whole route code is the prefix)",
    (STATUS, STATUS.replace('route_code.split("/")[0]', 'route_code.split("/", 0)[0]')))
 mu('router', "add_rule: flattened form with the start in front of the append",
-   (ADD, """        policy_method = StreamResultRouter._policies.get(policy, None)
-        if not policy_method:
-            raise ValueError(f"bad policy {policy!r}")
-        policy_method(self, sink, **policy_args)
-        if do_start_stop_run and self._in_run:
+   (ADD, HEAD + """        if do_start_stop_run and self._in_run and not any(s is sink for s in self._sinks):
             sink.startTestRun()
-        if do_start_stop_run:
+        if do_start_stop_run and not any(s is sink for s in self._sinks):
             self._sinks.append(sink)
+
 """))
-mu('router', "add_rule: `if self._in_run` taken out of the `if do_start_stop_run` (a sink that is not to see start/stop is started)",
-   (ADD, """        policy_method = StreamResultRouter._policies.get(policy, None)
-        if not policy_method:
-            raise ValueError(f"bad policy {policy!r}")
-        policy_method(self, sink, **policy_args)
-        if do_start_stop_run:
+mu('router', "add_rule: `if self._in_run` taken out of the registration test (a sink that is not to see start/stop, or is registered already, is started)",
+   (ADD, HEAD + """        if do_start_stop_run and not any(s is sink for s in self._sinks):
             self._sinks.append(sink)
         if self._in_run:
             sink.startTestRun()
+
 """))
+mu('router', "add_rule: a sink that is registered already is not appended again but still started at once (a second start inside the run)",
+   (ADD, HEAD + """        if do_start_stop_run:
+            if not any(s is sink for s in self._sinks):
+                self._sinks.append(sink)
+            if self._in_run:
+                sink.startTestRun()
+
+"""))
+mu('router', "add_rule: registered-already decided by equality (`sink not in self._sinks`) instead of identity",
+   (ADD, HEAD + """        if do_start_stop_run and sink not in self._sinks:
+            self._sinks.append(sink)
+            if self._in_run:
+                sink.startTestRun()
+
+"""))
+mu('router', "__init__: the fallback registered if it is truthy (`and fallback`) instead of present",
+   ("        if do_start_stop_run and fallback is not None:\n", "        if do_start_stop_run and fallback:\n"))
 mu('consumers', "status: the early return for interim states placed before the update (interim events no longer update the record)",
    (TAIL, """        self.on_test(self._inprogress.pop(key))
 """), ("""        if not key:
